@@ -211,6 +211,61 @@ func c03(c *Ctx) {
 	for _, u := range units {
 		c03unit(c, u, ch, node)
 	}
+	c03versions(c, units)
+}
+
+// c03versions: the agreement judged above was observed with one file per plugin invocation. The
+// usual v1/v2 layout puts a second proto package with the same service and RPC names (other verbs
+// and paths) into the same invocation; every generator must emit exactly the same routes for a
+// file then, so the agreement carries over.
+func c03versions(c *Ctx, units []*routeUnit) {
+	for _, u := range units {
+		if !strings.HasSuffix(u.File.Package, "main") && !strings.HasSuffix(u.File.Package, "shared") {
+			continue
+		}
+		older := corpus.OlderVersion(u.File)
+		alone, err1 := spec.Request([]*spec.File{u.File}, nil, "")
+		both, err2 := spec.Request([]*spec.File{older, u.File}, nil, "")
+		if err1 != nil || err2 != nil {
+			c.R.Harness(fmt.Sprintf("versions: %v %v", err1, err2))
+			continue
+		}
+		base := ""
+		if len(u.Cases) > 0 {
+			base = u.Cases[0].Base
+		}
+		for _, p := range []string{"go-http", "go-client", "ts-client", "ts-server"} {
+			caseID := fmt.Sprintf("route/versions/base=%s/cfg=%s/%s", base, subOf(u), p)
+			if !c.Want(caseID) {
+				continue
+			}
+			a := c.TB.Run(p, alone, plugin.RunOpt{})
+			b := c.TB.Run(p, both, plugin.RunOpt{})
+			c.R.Eval(2)
+			if !a.OK() {
+				c.R.Inconclusive(caseID, "baseline-not-ok")
+				continue
+			}
+			rp := map[string]any{"protos": []string{older.Proto(), u.File.Proto()}, "plugin": p}
+			if !b.OK() {
+				c.R.Violate(caseID, "route-depends-on-invocation", "refused or crashed with a same-named service of another package in the run", map[string]any{"protos": rp["protos"], "plugin": p, "error": b.Error, "crash": b.Crash})
+				c.R.Decided(caseID)
+				continue
+			}
+			for name, content := range a.Files {
+				other, ok := b.Files[name]
+				if !ok {
+					c.R.Violate(caseID, "route-depends-on-invocation", "file missing", map[string]any{"protos": rp["protos"], "plugin": p, "file": name})
+					continue
+				}
+				if other != content {
+					d := firstDiff(content, other)
+					c.R.Violate(caseID, "route-depends-on-invocation", "emitted code differs", map[string]any{"protos": rp["protos"], "plugin": p, "file": name, "alone": around(content, d), "with_other_version": around(other, d)})
+				}
+			}
+			c.R.Decided(caseID)
+		}
+	}
 }
 
 func c03unit(c *Ctx, u *routeUnit, ch, node *lab.Child) {
